@@ -347,7 +347,9 @@ func (c *SymCtx) Done() <-chan struct{} {
 	return openCh
 }
 func (c *SymCtx) Err() error {
-	if c.Cancelled || c.Polls > 0 && c.K < int64(c.Polls) {
+	// (done from poll K on: Err is non-nil as soon as a look at Done would
+	// find it closed - also before anybody has looked)
+	if c.Cancelled || c.K <= int64(c.Polls) {
 		return context.Canceled
 	}
 	return nil
